@@ -2061,3 +2061,198 @@ def witness_graphs() -> dict[str, Any]:
     # several outputs, one of them used by nothing else
     W["entries"] = {"o1": x + y, "o2": pt.roll(y, 1, 0), "o3": ph("lonely")}
     return {k: pt.make_dict_of_named_arrays(v) for k, v in W.items()}
+
+
+# --------------------------------------------------------------------------
+# 11. substitution consistency: change ONE node, compare with an independent
+#     reflective substitution
+
+def function_witnesses() -> dict[str, Any]:
+    """functions with several return values that share a sub-expression /
+    a parameter, every result used by the caller (deterministic)"""
+    import pytato as pt
+    f8 = np.float64
+    x = pt.make_placeholder("x", (4,), f8)
+    y = pt.make_placeholder("y", (4,), f8)
+
+    def f2(a: Any, b: Any) -> Any:
+        t = pt.sin(a) + b
+        return {"u": t + 1.0, "v": t * 2.0}
+
+    def f3(a: Any, b: Any) -> Any:
+        t = pt.cos(a) * b
+        s = t + a
+        return {"u": t + 1.0, "v": s * 2.0, "w": s - t}
+
+    def fp(a: Any) -> Any:                 # only the parameter is shared
+        return {"u": a + 1.0, "v": a * 2.0}
+    r2 = pt.trace_call(f2, x, y)
+    r3 = pt.trace_call(f3, x + 1, y)
+    rp = pt.trace_call(fp, x * y)
+    W = {
+        "call_shared2": {"out": r2["u"] + r2["v"]},
+        "call_shared3": {"o1": r3["u"] + r3["v"], "o2": r3["w"]},
+        "call_shared_param": {"out": rp["u"] - rp["v"]},
+    }
+    return {k: pt.make_dict_of_named_arrays(v) for k, v in W.items()}
+
+
+def all_witnesses() -> dict[str, Any]:
+    W = dict(witness_graphs())
+    W.update(function_witnesses())
+    return W
+
+
+def reflect_substitute(root: Any, target: Any, new: Any) -> Any:
+    """*root* with *target* (by identity, in every name space) replaced by
+    *new*: only the nodes on a path to it are rebuilt (dataclasses.replace /
+    the DictOfNamedArrays constructor), each once; everything else is the
+    identical object.  No pytato mapper, no pytato ==."""
+    import pytato as pt
+    from constantdict import constantdict
+    memo: dict[int, Any] = {}
+
+    def rv(v: Any) -> Any:
+        if is_node(v) or is_function(v):
+            return rn(v)
+        if isinstance(v, tuple):
+            nv = tuple(rv(e) for e in v)
+            return v if all(a is b for a, b in zip(nv, v)) else nv
+        if isinstance(v, Mapping):
+            items = [(k, rv(e)) for k, e in v.items()]
+            if all(a[1] is b for a, b in zip(items, v.values())):
+                return v
+            return dict(items) if type(v) is dict else constantdict(items)
+        if _is_pt_dataclass(v):
+            ch = {n: rv(o) for n, o in _fields(v)}
+            ch = {n: o for n, o in ch.items() if o is not getattr(v, n)}
+            return dataclasses.replace(v, **ch) if ch else v
+        return v
+
+    def rn(x: Any) -> Any:
+        if x is target:
+            return new
+        if id(x) in memo:
+            return memo[id(x)]
+        ch = {n: rv(o) for n, o in _fields(x)}
+        ch = {n: o for n, o in ch.items() if o is not getattr(x, n)}
+        if not ch:
+            res = x
+        elif isinstance(x, pt.DictOfNamedArrays):
+            res = pt.DictOfNamedArrays(ch.get("_data", x._data), tags=ch.get("tags", x.tags))
+        elif type(x).__name__ == "NamedCallResult" and "_container" in ch:
+            # its axes and tags are those of the returned array (documented:
+            # "inherited from the call"): the result of a call is call[name]
+            res = ch["_container"][x.name]
+        else:
+            res = dataclasses.replace(x, **ch)
+        memo[id(x)] = res
+        return res
+    return rn(root)
+
+
+def _flat(root: Any) -> list[tuple[Any, list[Any]]]:
+    """every node and function definition below root (all name spaces), each
+    object once, with its children in canonical (path-sorted) order"""
+    out: list[tuple[Any, list[Any]]] = []
+    seen: set[int] = set()
+    st = [root]
+    while st:
+        o = st.pop()
+        if id(o) in seen:
+            continue
+        seen.add(id(o))
+        if is_function(o):
+            kids = [v for _, v in sorted(o.returns.items())]
+        else:
+            kids = [c for _, _, c in sorted(direct_children(o), key=lambda t: t[1])]
+        out.append((o, kids))
+        st.extend(kids)
+    return out
+
+
+def subst_record(rid: str, inp: Any, expected: Any, got: Any) -> dict:
+    """record for spec/PtSubst.tla"""
+    orig = {id(o) for o, _ in _flat(inp)}
+    oid: dict[int, int] = {}
+    labs: dict[Any, int] = {}
+    keep: list[Any] = []
+
+    def lab(o: Any) -> int:
+        if is_function(o):
+            sig: Any = ("fn", o.parameters, o.return_type, o.tags, tuple(sorted(o.returns)))
+        else:
+            from pytato.array import DataWrapper
+            sig = ("DataWrapper", id(o.data), _skel(o.shape, lambda c: 0), o.tags) \
+                if isinstance(o, DataWrapper) else (
+                    type(o).__name__,
+                    tuple((n, _skel(v, lambda c: 0)) for n, v in _fields(o)
+                          if n != "non_equality_tags"))
+        return labs.setdefault(sig, len(labs) + 1)
+
+    def enc(root: Any) -> dict:
+        fl = _flat(root)
+        num = {id(o): i + 1 for i, (o, _) in enumerate(fl)}
+        for o, _ in fl:
+            if id(o) not in oid:
+                oid[id(o)] = len(oid) + 1
+                keep.append(o)
+        return {"n": len(fl), "ch": [[num[id(c)] for c in kids] for _, kids in fl],
+                "lab": [lab(o) for o, _ in fl], "oid": [oid[id(o)] for o, _ in fl],
+                "orig": [id(o) in orig for o, _ in fl],
+                "kind": [type(o).__name__ for o, _ in fl], "root": num[id(root)]}
+    return {"id": rid, "a": enc(expected), "b": enc(got)}
+
+
+def substitution_cases(root: Any) -> list[tuple[Any, Any, str, list[str]]]:
+    """(X, X', kind of X, kinds of the edges leading to X) for every array
+    node of every name space that accepts a tag"""
+    from ptverif.usertags import FooTag
+    out = []
+    inc: dict[int, set[str]] = {}
+    fl = _flat(root)
+    for o, _ in fl:
+        if is_function(o):
+            for v in o.returns.values():
+                inc.setdefault(id(v), set()).add("returns")
+        else:
+            for kd, _, c in direct_children(o):
+                inc.setdefault(id(c), set()).add(kd)
+    import pytato as pt
+    for o, _ in fl:
+        if not isinstance(o, pt.Array):
+            continue
+        try:
+            new = o.tagged(FooTag())
+            assert new is not o and isinstance(new, type(o))
+        except Exception:       # noqa: BLE001   (call results, send holders: no tags of their own)
+            continue
+        out.append((o, new, type(o).__name__, sorted(inc.get(id(o), {"root"}))))
+    return out
+
+
+def rewriters(x: Any, new: Any) -> dict[str, Callable[[Any], Any]]:
+    """ways of asking pytato to change X only"""
+    import pytato as pt
+    from pytato.transform import CopyMapper
+
+    def handler_subclass(root: Any) -> Any:
+        name = None
+        for klass in type(x).__mro__:
+            name = klass.__dict__.get("_mapper_method") or getattr(klass, "_mapper_method", None)
+            if name and hasattr(CopyMapper, name):
+                break
+        if not name or not hasattr(CopyMapper, name):
+            raise NotImplementedError("no CopyMapper handler")
+        base = getattr(CopyMapper, name)
+
+        def handler(self: Any, expr: Any) -> Any:
+            res = base(self, expr)
+            return new if expr is x else res
+        Sub = type("OneNodeRewriter", (CopyMapper,), {name: handler})
+        return Sub()(root)
+    return {
+        "map_and_copy": lambda root: pt.transform.map_and_copy(
+            root, lambda n: new if n is x else n),
+        "CopyMapper-subclass": handler_subclass,
+    }
